@@ -16,7 +16,7 @@ pub struct GenStats {
     pub restricted: usize,
 }
 
-pub const DUMMY_ROOT: &str = "/dev/shm/waxsim.0/r0000000000000000";
+pub const DUMMY_ROOT: &str = "/dev/shm/waxsim.0/w0/r0000000000000000";
 
 /// Random interleaving of `nw` walkers (the drain after the schedule finishes the rest).
 pub fn interleaving(rng: &mut Rng, nw: usize, size: usize) -> Vec<Step> {
@@ -42,7 +42,7 @@ pub fn prefix_touches_link(model: &Model, base: &str, expr: &str, rooted: bool) 
     let world: Option<String> = if rooted {
         prefix
             .strip_prefix(DUMMY_ROOT)
-            .map(|r| r.trim_start_matches('/').to_string())
+            .map(|r| r.trim_matches('/').to_string())
     }
     else {
         crate::exec::to_world(&join(&format!("{}/{}", R, base), &prefix).replace("//", "/"), "")
